@@ -37,6 +37,7 @@ type Session struct {
 	ServerRev int    `json:"srev"`
 	Behaviour string `json:"behaviour"` // hello | late | exception | other | garbage | cut | truncated | stall
 	DelayMs   int    `json:"delayMs"`
+	CancelMs  int    `json:"cancelMs"` // > 0: the caller cancels the context this long after Dial began
 	Database  string `json:"database"`
 	User      string `json:"user"`
 	Password  string `json:"password"`
@@ -145,6 +146,12 @@ func Run(s Session) ([]Event, error) {
 			return
 		case "stall":
 			return
+		case "blockw":
+			// the hello is sent, but from now on the server does not read: whatever the client writes next blocks
+			c.StallWrites(true)
+			sent.EncodeAware(&b, helloSeen.ProtocolVersion)
+			c.Deliver(b.Buf)
+			return
 		}
 		if s.Scn != "" {
 			srvQuery = &queryServer{s: s, r: r, c: c}
@@ -163,10 +170,19 @@ func Run(s Session) ([]Event, error) {
 		// shorter than the late hello's delay: the time allowed for dialling must not bound the handshake
 		DialTimeout: dialTimeout}
 	t0 := time.Now()
-	cl, err := ch.Dial(context.Background(), opts)
+	dctx := context.Background()
+	if s.CancelMs > 0 {
+		var cancel context.CancelFunc
+		dctx, cancel = context.WithCancel(dctx)
+		tm := time.AfterFunc(time.Duration(s.CancelMs)*time.Millisecond, cancel)
+		defer tm.Stop()
+		defer cancel()
+	}
+	cl, err := ch.Dial(dctx, opts)
 	elapsed := time.Since(t0)
+	conn.StallWrites(false)
 	hs := conn.Snap()
-	ev := Event{"ev": "Handshake", "id": s.ID, "crev": s.ClientRev, "srev": s.ServerRev, "behaviour": s.Behaviour, "delayMs": s.DelayMs,
+	ev := Event{"ev": "Handshake", "id": s.ID, "crev": s.ClientRev, "srev": s.ServerRev, "behaviour": s.Behaviour, "delayMs": s.DelayMs, "cancelMs": s.CancelMs,
 		"result": classOf(err), "dialed": d.dialed, "connClosed": hs.Closed, "closeCalls": hs.CloseCalls, "elapsedMs": int(elapsed / time.Millisecond),
 		"readTimeoutMs": int(readTimeout / time.Millisecond), "handshakeTimeoutMs": int(handshakeTimeout / time.Millisecond),
 		"written": ints(hs.Written), "quotaKey": ints([]byte(s.QuotaKey)), "usable": cl != nil}
